@@ -315,7 +315,8 @@ structure Prog2 where
   deriving Inhabited
 
 def concreteNames : List String :=
-  ["mov", "add", "sub", "and", "or", "xor", "imul", "shl", "shr", "orr", "eor", "mul", "lsl", "lsr", "madd", "neg", "not", "mvn", "inc", "dec"]
+  ["mov", "add", "sub", "and", "or", "xor", "imul", "shl", "shr", "orr", "eor", "mul", "lsl", "lsr", "madd", "neg", "not", "mvn", "inc", "dec",
+   "sar", "asr", "rol", "ror", "udiv", "bic", "orn", "eon", "andn", "msub", "mneg"]
 
 /-- recipe of a register/immediate-only instruction whose operand 0 is the only register written (and fully written) -/
 def mkRecipe (name : String) (ops : List Opd) (nReads : Nat) : Option Recipe :=
@@ -843,6 +844,16 @@ def evalRecipe (r : Recipe) (ins : List Nat) : Nat :=
    | "shl" | "lsl" => bin (fun x y => x <<< (y % sh))
    | "shr" | "lsr" => bin (fun x y => x >>> (y % sh))
    | "madd" => b * c3 + d4
+   | "msub" => d4 + m * m - (b * c3) % m
+   | "mneg" => m * m - (b * c3) % m
+   | "sar" | "asr" => bin (fun x y => let k := y % sh; if x >>> (sh - 1) == 1 then ((x >>> k) ||| ((m - 1) ^^^ ((m - 1) >>> k))) else x >>> k)
+   | "rol" => bin (fun x y => let k := y % sh; ((x <<< k) ||| (x >>> (sh - k))) % m)
+   | "ror" => bin (fun x y => let k := y % sh; ((x >>> k) ||| (x <<< (sh - k))) % m)
+   | "udiv" => bin (fun x y => if y == 0 then 0 else x / y)
+   | "bic" => bin (fun x y => x &&& ((m - 1) ^^^ y))
+   | "orn" => bin (fun x y => x ||| ((m - 1) ^^^ y))
+   | "eon" => bin (fun x y => x ^^^ ((m - 1) ^^^ y))
+   | "andn" => ((m - 1) ^^^ b) &&& c3
    | "neg" => if n == 1 then m - a else m - b
    | "not" => m - 1 - a
    | "mvn" => m - 1 - b
